@@ -194,12 +194,13 @@ class Ref (object):
 
   def registry (self, dpids):
     """dpid -> set of acceptable connection indices (absent = must not be reachable).  'Most recent'
-    is accepted both as most recently opened and as most recently announced."""
+    live connection = the live connection that completed its handshake (was announced) last: a
+    connection accepted earlier whose barrier reply arrives later is the newer announcement."""
     out = {}
     for d in dpids:
       L = self.live_up(d)
       if L:
-        out[d] = set([max(L, key=lambda c: c.open_seq).idx, max(L, key=lambda c: c.up_seq).idx])
+        out[d] = set([max(L, key=lambda c: c.up_seq).idx])
     return out
 
   def required_ps (self, idx):
